@@ -218,28 +218,28 @@ PENDING = "designed (DESIGN.md section 4); checker not built yet in this tree"
 EXTRA = {
     "C23": "; closed forms of the bytes-per-sample rounding",
     "C12": "; sign-set lattice over path conditions",
-    "C22": "; every yielding loop yields on every iteration (no early exit); blit-axes provenance (rows by heights, columns by widths); range provenance of generated samples",
-    "C14": "; argument-binding chain of minimum_qindex / minimum_slice_size_scaler from make_sequence to the search; hidden-state and bug-pattern rules; field-width guard (width read from the description program) between the search and the slice constructors",
+    "C22": "; every yielding loop yields on every iteration (no early exit); blit-axes provenance (rows by heights, columns by widths); range provenance of generated samples; one arm per sampling format in from_444 with the halved shapes; hidden-state analysis of the generators' modules; sizes handed to resize() never floor quotients without a clamp (reaching-definition kill analysis)",
+    "C14": "; argument-binding chain of minimum_qindex / minimum_slice_size_scaler from make_sequence to the search; hidden-state and bug-pattern rules; field-width guard (width read from the description program) between the search and the slice constructors; every definition of the slice size scaler is max(safe, override); exactness of the bounded-block bit count (trailing 1 bits of the last code)",
     "C01": "; control-dependence signature of every structure check against an applicability table, and the set of state keys/calls each check's own condition reads against a reviewed table; bug-pattern rules; coordinate-wise shape of the fragment contiguity predicate; partial-byte mask of the header recording; must-follow of log_version_lower_bound after every version test; cross-table satisfiability of every level (level_constraints.csv against the literal results of version_constraints.py)",
     "C02": "; set-valued interprocedural provenance analysis of every table/enum lookup key (locals, parameters, map(), state keys by store-pairing, exception attributes through direct and dynamic raises) against the data tables' key sets; freshness of per-picture allocators; cross-table check that every option a viewer hint spells is registered by the viewer's argument parser; interpreter digit-limit rule",
     "C03": "; scratch State(...) key/source agreement; bug-pattern rules (swapped same-named arguments, stale lower-bound guard, presence by truthiness); every rule of C07 and C15 re-evaluated; shared quantisation-matrix key rule; validator-rejection/encoder-rejection counterpart rule for frame sizes; guard between the unbounded index search and the slice constructors; C14.h and C20.g re-evaluated through C07/C15",
     "C04": "; C11 re-evaluated; ceil-division bound of the lossless slice-size scaler against the length field width; row-distinct copy handed to the in-place encoder; bug-pattern rules; hidden-state analysis of the encoder and transform modules; identity-copy shape of the samples handed to the in-place encoder; one coefficient array per component; every subband gathered into its slice unconditionally",
     "C05": "; bug-pattern rules over the generators' slice-level arithmetic; shared quantisation-matrix key rule; aliasing lint (one fresh mutable object stored by a loop into many containers); dominating-guard rule for differences stored into length fields; last-iteration-leak lint; minimum-over-all-slices shape of the prefix size; closed-form bound of every value stored into a fixed-width slice field (qindex, length bytes); C15.a-d/g and C24.d (decoder model answers) re-evaluated",
-    "C06": "; hidden-state analysis and bug-pattern rules over the description program, serdes framework and bit I/O; C20.b/c/d/g and C21.a re-evaluated (bit-level and primitive-level agreement)",
+    "C06": "; hidden-state analysis and bug-pattern rules over the description program, serdes framework and bit I/O; C20.b/c/d/g and C21.a re-evaluated (bit-level and primitive-level agreement); C20.e re-evaluated (file and position fields touched by the bit-level primitives only)",
     "C07": "; per-sequence definite assignment of every local rebound in the loop over sequences; hidden-state and bug-pattern rules; closed set of defaults for every field read (documented-defaults rule); currency of the flag that licenses deletions; guard-term classification of every version-implication call; validator-side must-follow of the version log; negative-polarity guards counted as extra terms; C20.g re-evaluated",
     "C08": "; hidden-state analysis and bug-pattern rules; shared quantisation-matrix key rule over all uses of the table; per-picture state snapshot rule; closed classification of the validator's own not-in-spec statements; C09.f re-evaluated",
     "C09": "; dyadic-pyramid shape of the unpinned subband_width/height formulas as linear forms of the shift exponents; exact-integer-arithmetic scan of the decoder's reach; read-set and exit count of the unpinned dimension functions; shape of the padding-removal helpers; closed set of not-in-spec statements in pinned pseudocode functions; optional-entry truthiness lint over the bit reader; deletion shape of per-picture state",
-    "C10": "; who-may-ask-the-stream-position rule; aliasing (FRESH facts) of per-sequence state; bug-pattern rules; hidden-state analysis of the decoder incl. side storage in caller-owned objects (__dict__, setattr)",
-    "C11": "; unconditional padding; helper-inlined filter index comparison; hidden-state and bug-pattern rules",
+    "C10": "; who-may-ask-the-stream-position rule; aliasing (FRESH facts) of per-sequence state; bug-pattern rules; hidden-state analysis of the decoder incl. side storage in caller-owned objects (__dict__, setattr); positions obtained from tell() never compared with a constant",
+    "C11": "; unconditional padding; helper-inlined filter index comparison; hidden-state and bug-pattern rules; C09.g re-evaluated (padding removal cuts in the matching dimension)",
     "C15": "; per-candidate level filtering (shared with C16.c); bug-pattern rules; pattern-matched guards of the hand-written colour-specification generator against the ColorSpecificiation field list; agreement of each validator assert_in_enum enumeration with the enumeration the bitstream description declares for the field read; aliasing lint for objects shared between yielded headers; every rule of C07 re-evaluated; C10.b/c (state reset) re-evaluated",
-    "C16": "; hidden-state analysis of the encoder's level decisions; bug-pattern rules; guard classification of every known-value store (profile tests only); literal level-keyed values in every yielded option dominated by membership tests; C03.a re-evaluated; known value equals emitted value for every level-constrained key",
+    "C16": "; hidden-state analysis of the encoder's level decisions; bug-pattern rules; guard classification of every known-value store (profile tests only); literal level-keyed values in every yielded option dominated by membership tests; C03.a re-evaluated; known value equals emitted value for every level-constrained key; guard classification of the empty-entry widening in decide_extended_transform_flag",
     "C17": "; freshness of the union result; bug-pattern rules; hidden-state analysis of the table module; closed forms of the AnyValue arm of is_disjoint; no early exit in the CSV column loop; unrecognised disjuncts of the catch-all arm counted",
     "C18": "; ownership of Matcher state and freshness of query results; unconditional symbol and wildcard steps; (thorough) exhaustive comparison of the composed gadgets with the reference on all 45 000 pattern trees up to 8 nodes; closed forms of is_complete; hidden-state analysis of the pattern module; construction shape of every operator in the pattern parser",
-    "C19": "; closed list of pruning conditions; fresh matcher per pattern in the root node; hidden-state and bug-pattern rules; truth-table evaluation of the candidate-combination if-chain over the two wildcard tests; C18.c re-evaluated",
-    "C20": "; ownership of the file and position fields by the bit-level primitives; bug-pattern rules; statement order of flush/seek/reset in the writer; unbounded exp-Golomb read loop; writer start offset from the file position; non-positive block-length exhaustion test of the readers",
-    "C21": "; used-mark precedes the fallible lookup; bug-pattern rules; unconditional context and stream access in every primitive of both sides",
+    "C19": "; closed list of pruning conditions; fresh matcher per pattern in the root node; hidden-state and bug-pattern rules; truth-table evaluation of the candidate-combination if-chain over the two wildcard tests; C18.c re-evaluated; additions to the candidate set dominated by the wildcard test; no return before the search; documented default insertion limit equals the coded one",
+    "C20": "; ownership of the file and position fields by the bit-level primitives; bug-pattern rules; statement order of flush/seek/reset in the writer; unbounded exp-Golomb read loop; writer start offset from the file position; non-positive block-length exhaustion test of the readers; validator reader's tell() takes the file's own position",
+    "C21": "; used-mark precedes the fallible lookup; bug-pattern rules; unconditional context and stream access in every primitive of both sides; default-value fallback returns a subscript by the target or re-raises",
     "C24": "; parameter-mutation analysis of every generator through all callees; C27.c re-evaluated; output directory and makedirs atomicity rules; every write under the output directory dominated by its makedirs",
-    "C25": "; hidden-state analysis of picture output; divisor classification; file naming via os.path.splitext; C23.a-c re-evaluated; interpreter digit-limit rule; bug-pattern lints incl. split unpacking; C02.6 re-evaluated for the validator's explain path",
+    "C25": "; hidden-state analysis of picture output; divisor classification; file naming via os.path.splitext; C23.a-c re-evaluated; interpreter digit-limit rule; bug-pattern lints incl. split unpacking; C02.6 re-evaluated for the validator's explain path; output patterns naming pictures 0 and 1 alike refused before decoding",
     "C26": "; totality of every container access in the monitor's closure; bug-pattern rules; totality analysis of every Entry formatter in the package; C20.b/g re-evaluated; interpreter digit-limit rule",
     "C27": "; validate-before-mutate for mutators of existing objects; bug-pattern rules",
     "C28": "; grow-before-index rule of the table reader; bug-pattern rules; default-only-where-supplied guard of the cell parser helper",
